@@ -133,6 +133,42 @@ impl CoreState {
                     Err(_) => "err".to_string(),
                 })
             }
+            "forge" => {
+                // forge <side> <key id> <zero|ff|rand> <hex plaintext>: an outsider who was never given a session key seals a datagram under a key of
+                // its own choice (all-zero, all-0xff, random), names key slot <key id>, and uses a counter in the half the receiver expects
+                let s = Self::side(t.get(1)?)?;
+                let key_id: u8 = t.get(2)?.parse().ok()?;
+                let algo = self.algo?;
+                let key = match *t.get(3)? {
+                    "zero" => vec![0u8; algo.key_len()],
+                    "ff" => vec![0xffu8; algo.key_len()],
+                    _ => {
+                        let mut k = vec![0u8; algo.key_len()];
+                        use ring::rand::SecureRandom;
+                        ring::rand::SystemRandom::new().fill(&mut k).unwrap();
+                        k
+                    }
+                };
+                let mut data = unhex(t.get(4)?)?;
+                let (_, half, _) = hcore::view(&self.cores.get(s)?.0);
+                let mut nonce = [0u8; 12];
+                nonce[0] = if half { 0x00 } else { 0x80 };
+                for b in nonce[6..12].iter_mut() {
+                    *b = 0xff;
+                }
+                let k = LessSafeKey::new(UnboundKey::new(algo, &key).ok()?);
+                k.seal_in_place_append_tag(aead::Nonce::assume_unique_for_key(nonce), aead::Aad::empty(), &mut data).ok()?;
+                let mut d = vec![key_id];
+                d.extend_from_slice(&nonce[5..12]);
+                d.extend_from_slice(&data);
+                let mut buf = MsgBuffer::new(16);
+                buf.set_length(d.len());
+                buf.message_mut().copy_from_slice(&d);
+                Some(match self.cores.get_mut(s)?.0.decrypt(&mut buf) {
+                    Ok(()) => format!("ok:{}", hex(buf.message())),
+                    Err(_) => "err".to_string(),
+                })
+            }
             "tick" => {
                 let s = Self::side(t.get(1)?)?;
                 self.cores.get_mut(s)?.0.every_second();
